@@ -66,7 +66,7 @@ theorem rdE_some {exts : Array Ext} {i : Nat} {e : Ext} (h : rdE exts i = .ok e)
 section
 variable {exts : Array Ext} {nbF : Nat} {mx : List Nat}
 
-theorem detect_aux (hv : AllValid exts nbF) (hmxl : mx.length = nbF) (hmx : ∀ g, g < nbF → mx.getD g 0 ≤ exts.size)
+theorem detect_aux (hv : AllIF exts nbF) (hmxl : mx.length = nbF) (hmx : ∀ g, g < nbF → mx.getD g 0 ≤ exts.size)
     (f : Nat) (hf : f + 1 < nbF) (s : Det) (e : Ext) (hrl : s.rep.length = nbF)
     (hc : ∀ g, f < g → g < nbF → Clean exts mx (s.rep.getD g 0) g)
     (hcr : canRepeat exts mx s.rep nbF e (f + 1) = .ok true) :
@@ -94,7 +94,7 @@ theorem detect_aux (hv : AllValid exts nbF) (hmxl : mx.length = nbF) (hmx : ∀ 
   · rw [rdN_getD (by omega)]; exact ⟨_, rfl⟩
   · exact ⟨_, rfl⟩
 
-theorem detectLoop_spec (hv : AllValid exts nbF) (hmxl : mx.length = nbF) (hmx : ∀ g, g < nbF → mx.getD g 0 ≤ exts.size)
+theorem detectLoop_spec (hv : AllIF exts nbF) (hmxl : mx.length = nbF) (hmx : ∀ g, g < nbF → mx.getD g 0 ≤ exts.size)
     (f : Nat) (hf : f + 1 < nbF) (i hi : Nat) (s : Det) (hhi : hi ≤ exts.size) :
     s.rep.length = nbF → (∀ g, f < g → g < nbF → Clean exts mx (s.rep.getD g 0) g) →
     ∃ det, detectLoop exts mx nbF f i hi s = .ok det ∧
